@@ -990,79 +990,12 @@ theorem invertibleG_homothety (E : Env) : invertibleG E (mkHomothety 2 scalarStr
   · simp [mkHomothety, isQURot, isLeafCls] at h
   · simp [mkHomothety] at h
 
-/-! ### packaging against a local copy of `OpSem` / `ArithSem` whose `honest` / `homogeneous` are guarded -/
+/-! ### packaging
 
-namespace Packaging
-
-/-- `OpSem` (FuraxProofs/Lemmas/Nary.lean) with `honest` and `homogeneous` guarded by `StructOK` -/
-structure OpSemG (V : Type) where
-  den : Op → V → V
-  mem : Struct → V → Prop
-  smul : Rat → V → V
-  honest : ∀ o x, StructOK o → mem (Op.inS o) x → mem (Op.outS o) (den o x)
-  smul_one : ∀ x, smul 1 x = x
-  smul_smul : ∀ a b x, smul a (smul b x) = smul (a * b) x
-  mem_smul : ∀ s a x, mem s x → mem s (smul a x)
-  identity_law : ∀ o, o.isIdentity = true → ∀ x, mem (Op.inS o) x → den o x = x
-  homothety_law : ∀ o, o.isHomothety = true → ∀ x, mem (Op.inS o) x → den o x = smul (homValue o) x
-  homogeneous : ∀ o a x, StructOK o → mem (Op.inS o) x → den o (smul a x) = smul a (den o x)
-
-/-- `Sem.app` -/
-def OpSemG.app {V : Type} (L : OpSemG V) : List Op → V → V
-  | [], x => x
-  | o :: os, x => L.den o (OpSemG.app L os x)
-
-/-- `ArithSem` (FuraxProofs/Lemmas/ArithSound.lean) over `OpSemG` -/
-structure ArithSemG (V : Type) extends OpSemG V where
-  add : V → V → V
-  zero : V
-  add_assoc : ∀ x y z, add (add x y) z = add x (add y z)
-  zero_add : ∀ x, add zero x = x
-  comp_law : ∀ u ops x, den (.comp u ops) x = toOpSemG.app ops x
-  add_law : ∀ u td ops x, den (.cont u .add td ops) x = (ops.map (fun o => den o x)).foldr add zero
-  add_zero : ∀ x, add x zero = x
-  smul_sum : ∀ a (l : List V), smul a (l.foldr add zero) = (l.map (smul a)).foldr add zero
-  invertible : Op → Prop
-  inv_left : ∀ u k o, invertible o → (k = .inverse ∨ k = .qurotT ∨ k = .diagInv) →
-    ∀ x, mem (Op.inS o) x → den (.wrap u k o) (den o x) = x
-  inv_right : ∀ u k o, invertible o → (k = .inverse ∨ k = .qurotT ∨ k = .diagInv) →
-    ∀ x, mem (Op.inS (.wrap u k o)) x → den o (den (.wrap u k o) x) = x
-
-/-- the list denotation is an `OpSemG` -/
-noncomputable def opSemG (E : Env) (hE : LeafHom E) : OpSemG V where
-  den := den E
-  mem := mem
-  smul := vsmul
-  honest := fun o x ho hx => Laws.honest E o ho x hx
-  smul_one := Laws.smul_one
-  smul_smul := Laws.smul_smul
-  mem_smul := Laws.mem_smul
-  identity_law := Laws.identity_law E
-  homothety_law := Laws.homothety_law E
-  homogeneous := fun o a x _ _ => Laws.homogeneous E hE o a x
-
-theorem opSemG_app (E : Env) (hE : LeafHom E) (ops : List Op) (x : V) :
-    (opSemG E hE).app ops x = app E ops x := by
-  induction ops with
-  | nil => rfl
-  | cons o os ih => rw [OpSemG.app, app, ih]; rfl
-
-/-- the list denotation is an `ArithSemG` -/
-noncomputable def arithSemG (E : Env) (hE : LeafHom E) : ArithSemG V where
-  toOpSemG := opSemG E hE
-  add := vadd
-  zero := []
-  add_assoc := Laws.add_assoc
-  zero_add := Laws.zero_add
-  comp_law := fun u ops x => by rw [opSemG_app]; exact Laws.comp_law E u ops x
-  add_law := Laws.add_law E
-  add_zero := Laws.add_zero
-  smul_sum := Laws.smul_sum
-  invertible := invertible E
-  inv_left := inv_left E
-  inv_right := inv_right E
-
-end Packaging
+The laws above are packaged into the REAL structures `OpSem` / `ArithSem` / `RuleLaws` / `ContainerLaws` of the
+framework in FuraxProofs/Sem/ListModel.lean (`listOpSem`, `listArithSem` with `invertible := invertibleG E`,
+`listRuleLaws`, `listContainerLaws`, `reduce_sound_closed`).  (A local packaging against guarded copies of the
+structures used to live here; it is superseded.) -/
 
 end ListSem
 end Furax
